@@ -107,8 +107,17 @@ func (s *stub) handler(w http.ResponseWriter, r *http.Request) {
 		w.WriteHeader(503)
 		w.Write([]byte("unavailable (scripted)"))
 	case "hang":
+		// nothing for longer than the client's timeout, then the connection goes away without an answer.  (Answering
+		// 200 "too late" is ambiguous: a client starved of CPU notices its own timeout late and may take that answer,
+		// while this request was not recorded as an acknowledgement.)
 		time.Sleep(hang)
-		w.WriteHeader(200) // too late: the client has given up
+		if hj, ok := w.(http.Hijacker); ok {
+			if c, _, err := hj.Hijack(); err == nil {
+				c.Close()
+				return
+			}
+		}
+		panic(http.ErrAbortHandler)
 	case "reset":
 		if hj, ok := w.(http.Hijacker); ok {
 			c, _, err := hj.Hijack()
